@@ -341,10 +341,13 @@ impl Configuration {
         config: Rc<RefCell<Self>>,
         values: Arc<dyn MapView<Value = ConfiguredValue>>,
     ) -> Self {
+        // An explicit configuration stays explicit when it passes through `@forward`
+        let span = (*config).borrow().span;
+
         Self {
             values,
             original_config: Some(config),
-            span: None,
+            span,
         }
     }
 
